@@ -1,10 +1,24 @@
 (** Model of cron/corehooks.go (AddHooks) on top of the state model: which
     calls a state operation makes to the cron service (ScheduleEvent / Rem),
-    i.e. where the states invoke their add/rem hooks:
-      indexed: add (also while loading), public Rem, Clear (rem hook for every fact);
-      linear:  Add, public Rem; NOT Load, NOT Clear;
-      neither: cascaded removals, expiry purges, overwrites.
-    and the specification of C15's registry clause.  Definitions only. *)
+    i.e. where the states invoke their add/rem hooks, as the code is in /repo
+    after the repair of D28 (both kinds of state alike):
+      Add:    the add hook (ScheduleEvent for a rule with a schedule); when the
+              add replaces a record and the new one is not scheduled, the rem
+              hook for the replaced record (runRemHook: the hook is given the
+              record that leaves, it does not ask the state for it);
+      Rem:    the rem hook for the named id, through State.Get (so a missing or
+              expired id is "not found" and nothing is removed); then, inside
+              the internal rem, the rem hook for every dependent that the
+              deleteWith cascade deletes, before it is deleted;
+      purge:  the same internal rem, with the hook for the expired item too
+              (every public read ends with a purge);
+      Clear:  the rem hook for every record, expired or not;
+      Load:   the add hook with loading = true for every record that is loaded
+              (a persistent cron ignores it); the indexed state drops the
+              expired records it finds in the storage: rem hook for them.
+    The state functions themselves (State.v) are not touched by the hooks: the
+    functions below replay them and collect the calls.  Then the registry and
+    the specification of C15's registry clause.  Definitions only. *)
 From Verif Require Import Json Outcome Match PatIndex State Location.
 
 Inductive ccall := CSched (id schedule : string) | CRemJ (id : string).
@@ -19,42 +33,211 @@ Definition fact_schedule (fact : json) : option string :=
   | _ => None
   end.
 
-(** add hook, after a successful add of [id] *)
-Definition calls_add (persistent loading : bool) (s' : state) (r : outcome string) : list ccall :=
-  if negb (st_hooks s') || (persistent && loading) then [] else
+(** ** The rem hook for a record that leaves the state (core.runRemHook with
+    the hook of cron.AddHooks): the hook looks at the record it is handed. *)
+Definition unhook_calls (s : state) (id : string) (fact : json) : list ccall :=
+  if st_hooks s then match fact_schedule fact with Some _ => [CRemJ id] | None => [] end else [].
+
+(** ** The internal rem (IndexedState.rem / LinearState.rem) *)
+
+(** the part of a removal before the dependents are looked for; the boolean
+    says whether the removal goes on (false: the storage call failed) *)
+Definition crem_head (s : state) (id : string) : state * bool :=
+  match st_kind s with
+  | Indexed =>
+      match alookup id (st_facts s) with
+      | Some fact =>
+          let s1 := match extract_rule fact false with
+                    | Ok (Some rule) => unindex_rule s id rule
+                    | _ => s
+                    end in
+          let s2 := set_facts s1 (aremove id (st_facts s1)) in
+          let s3 := set_tindex s2 (fold_left (fun idx t => ti_rem t id idx) (extract_terms fact) (st_tindex s2)) in
+          let '(s4, failed) := store_call s3 in
+          if failed then (s4, false) else (set_store s4 (aremove id (st_store s4)), true)
+      | None => (s, true)
+      end
+  | Linear =>
+      let '(s1, failed) := store_call s in
+      if failed then (s1, false)
+      else let s2 := set_store s1 (aremove id (st_store s1)) in
+           (set_facts s2 (aremove id (st_facts s2)), true)
+  end.
+
+(** `if unhook { s.unhook(ctx, id, fact) }` right before the record is deleted
+    from the fact map: the indexed state deletes from memory first, the linear
+    state from the storage first (and gives up if that fails) *)
+Definition crem_head_calls (s : state) (id : string) : list ccall :=
+  match alookup id (st_facts s) with
+  | Some fact =>
+      match st_kind s with
+      | Indexed => unhook_calls s id fact
+      | Linear => if snd (store_call s) then [] else unhook_calls s id fact
+      end
+  | None => []
+  end.
+
+Section WithRemC.
+  (** [rem_rec]: the recursive removal (State.rem_fuel); [rem_rec_c]: the
+      calls it makes, when it runs the hook for the id it is given. *)
+  Variable rem_rec : state -> string -> Z -> state * outcome bool.
+  Variable rem_rec_c : state -> string -> Z -> list ccall.
+
+  Fixpoint crem_list (s : state) (ids : list string) (skip : option string) (now : Z) : list ccall :=
+    match ids with
+    | [] => []
+    | j :: r =>
+        if skipped skip j then crem_list s r skip now
+        else (rem_rec_c s j now ++
+              match rem_rec s j now with
+              | (s1, Ok _) => crem_list s1 r skip now
+              | _ => []
+              end)%list
+    end.
+
+  Definition cdelete_dependencies (s : state) (id : string) (now : Z) : list ccall :=
+    match search_state s (dw_pattern id) now with
+    | (s1, Ok found) =>
+        crem_list s1 (dw_targets s1 id (map fst found))
+                  (match st_kind s with Linear => Some id | Indexed => None end) now
+    | _ => []
+    end.
+
+  (** [unhook]: false for the id that the public Rem was given (its hook has
+      run), true for dependents and expired items *)
+  Definition crem_body (unhook : bool) (s : state) (id : string) (now : Z) : list ccall :=
+    ((if unhook then crem_head_calls s id else []) ++
+     (if snd (crem_head s id) then cdelete_dependencies (fst (crem_head s id)) id now else []))%list.
+End WithRemC.
+
+Fixpoint crem_fuel (fuel : nat) (unhook : bool) (s : state) (id : string) (now : Z) : list ccall :=
+  match fuel with
+  | O => []
+  | S f => crem_body (rem_fuel f) (crem_fuel f true) unhook s id now
+  end.
+
+(** the calls of [st_rem s id now] *)
+Definition calls_rem_rec (unhook : bool) (s : state) (id : string) (now : Z) : list ccall :=
+  crem_fuel (cascade_fuel s) unhook s id now.
+
+(** ** purge: every noted item that is still there and still expired is removed
+    by the internal rem, hook included *)
+Fixpoint cpurge_ids (s : state) (ids : list string) (now : Z) : list ccall :=
+  match ids with
+  | [] => []
+  | id :: r =>
+      match alookup id (st_facts s) with
+      | None => cpurge_ids s r now
+      | Some fact =>
+          if fact_expired fact now then
+            (calls_rem_rec true s id now ++
+             match st_rem s id now with
+             | (s1, Ok _) => cpurge_ids s1 r now
+             | (s1, Err _) => cpurge_ids s1 r now
+             | _ => []
+             end)%list
+          else cpurge_ids s r now
+      end
+  end.
+
+Fixpoint cpurge_fuel (fuel : nat) (s : state) (now : Z) : list ccall :=
+  match st_pending s with
+  | [] => []
+  | ids =>
+      match fuel with
+      | O => []
+      | S f =>
+          (cpurge_ids (set_pending s []) ids now ++
+           match purge_ids (set_pending s []) ids now with
+           | (s1, Ok _) => cpurge_fuel f s1 now
+           | _ => []
+           end)%list
+      end
+  end.
+
+Definition calls_purge (s : state) (now : Z) : list ccall := cpurge_fuel (purge_rounds s) s now.
+
+(** ** The public reads: the read proper calls nothing, the purge that ends it does *)
+Definition calls_get (s : state) (id : string) (now : Z) : list ccall :=
+  calls_purge (fst (get_body s id now)) now.
+
+Definition calls_search (s : state) (pattern : json) (now : Z) : list ccall :=
+  calls_purge (fst (search_state s pattern now)) now.
+
+(** the read of doFindRules, before its deferred purge *)
+Definition find_body (s : state) (event : json) (now : Z) : state * outcome (list (string * json)) :=
+  match st_kind s with
+  | Indexed =>
+      match pi_search (st_pindex s) event with
+      | Ok ids => find_ids_idx s ids now []
+      | Err e => (s, Err e)
+      | Panic w => (s, Panic w)
+      | OutOfFuel => (s, OutOfFuel)
+      end
+  | Linear => find_ids_lin s (map fst (st_facts s)) event now []
+  end.
+
+Definition calls_find (s : state) (event : json) (now : Z) : list ccall :=
+  calls_purge (fst (find_body s event now)) now.
+
+(** ** The public Rem: the rem hook fetches the fact (State.Get, with its own
+    purge) and unschedules the id if the fact is a scheduled rule; then the
+    internal rem (no hook for the id itself), then the purge. *)
+Definition calls_Rem (s : state) (id : string) (now : Z) : list ccall :=
+  if negb (st_hooks s) then [] else
+  (calls_get s id now ++
+   match st_get s id now with
+   | (s1, Ok fact) =>
+       (match fact_schedule fact with Some _ => [CRemJ id] | None => [] end ++
+        calls_rem_rec false s1 id now ++
+        calls_purge (fst (st_rem s1 id now)) now)
+   | (s1, _) => calls_purge s1 now
+   end)%list.
+
+(** ** Add ([s]: before, [s']: after, [r]: the answer).  The add hook schedules
+    a rule with a schedule (the cron replaces a job with the same id); an
+    unscheduled fact that replaces a record unschedules the replaced record.
+    (A storage failure after the hook is not modelled here: the harness's
+    hooked locations have no fault injection.) *)
+Definition calls_add (persistent loading : bool) (s s' : state) (r : outcome string) : list ccall :=
+  if negb (st_hooks s') then [] else
   match r with
   | Ok id => match alookup id (st_facts s') with
-             | Some fact => match fact_schedule fact with Some sch => [CSched id sch] | None => [] end
+             | Some fact =>
+                 match fact_schedule fact with
+                 | Some sch => if persistent && loading then [] else [CSched id sch]
+                 | None => match alookup id (st_facts s) with
+                           | Some old => unhook_calls s id old
+                           | None => []
+                           end
+                 end
              | None => []
              end
   | _ => []
   end.
 
-(** rem hook of the public Rem: fetches the fact first *)
-Definition calls_rem (s : state) (id : string) (now : Z) : list ccall :=
-  if negb (st_hooks s) then [] else
-  match st_get s id now with
-  | (_, Ok fact) => match fact_schedule fact with Some _ => [CRemJ id] | None => [] end
-  | _ => []
+(** ** Clear: the rem hook for every record (remHooks), expired or not *)
+Definition calls_clear (s : state) : list ccall :=
+  flat_map (fun kv => unhook_calls s (fst kv) (snd kv)) (st_facts s).
+
+(** ** Load ([s']: the loaded state).  The indexed state drops the expired
+    records of the storage (rem hook); both kinds hand what they load to the
+    add hook with loading = true. *)
+Definition load_expired (now : Z) (kv : string * json) : bool :=
+  match prepare_fact (fst kv) (snd kv) now (fst kv) None with
+  | Err e => String.eqb e "expired"
+  | _ => false
   end.
 
-Definition calls_clear (s : state) (now : Z) : list ccall :=
-  if negb (st_hooks s) then [] else
-  match st_kind s with
-  | Indexed => flat_map (fun kv => if fact_expired (snd kv) now then [] else
-                                   match fact_schedule (snd kv) with Some _ => [CRemJ (fst kv)] | None => [] end)
-                        (st_facts s)
-  | Linear => []
-  end.
-
-(** Load: the indexed state re-adds every record (hook with loading = true) *)
-Definition calls_load (persistent : bool) (s' : state) : list ccall :=
-  if negb (st_hooks s') || persistent then [] else
-  match st_kind s' with
-  | Indexed => flat_map (fun kv => match fact_schedule (snd kv) with Some sch => [CSched (fst kv) sch] | None => [] end)
-                        (st_facts s')
-  | Linear => []
-  end.
+Definition calls_load (persistent : bool) (store : list (string * json)) (now : Z) (s' : state) : list ccall :=
+  if negb (st_hooks s') then [] else
+  ((match st_kind s' with
+    | Indexed => flat_map (fun kv => if load_expired now kv then unhook_calls s' (fst kv) (snd kv) else []) store
+    | Linear => []
+    end) ++
+   (if persistent then [] else
+    flat_map (fun kv => match fact_schedule (snd kv) with Some sch => [CSched (fst kv) sch] | None => [] end)
+             (st_facts s')))%list.
 
 (** The cron registry of one location: job id -> schedule. *)
 Definition registry := list (string * string).
@@ -74,3 +257,25 @@ Definition scheduled_rules (s : state) : registry :=
 
 Definition registry_exact (reg : registry) (s : state) : bool :=
   list_eqb (fun a b => String.eqb (fst a) (fst b) && String.eqb (snd a) (snd b)) reg (scheduled_rules s).
+
+(** ** What the calls of an operation must amount to, from the states before
+    and after it alone: a Rem for every scheduled rule of [s0] whose id no
+    longer holds a scheduled rule in [s1]; a ScheduleEvent for the rule that an
+    add stored ([added]) and, after a reload with a cron that forgets, for
+    every stored scheduled rule.  (The correspondence checker uses it for the
+    compound operations of a location and when expired items are around.) *)
+Definition sched_of (s : state) (id : string) : option string :=
+  match alookup id (st_facts s) with Some f => fact_schedule f | None => None end.
+
+Definition diff_calls (persistent : bool) (s0 s1 : state) (added : option string) (reload : bool) : list ccall :=
+  if negb (st_hooks s0) then [] else
+  (flat_map (fun js => match sched_of s1 (fst js) with None => [CRemJ (fst js)] | Some _ => [] end)
+            (scheduled_rules s0) ++
+   (match added with
+    | Some id => match sched_of s1 id with Some sch => [CSched id sch] | None => [] end
+    | None => []
+    end) ++
+   (if reload && negb persistent
+    then flat_map (fun kv => match fact_schedule (snd kv) with Some sch => [CSched (fst kv) sch] | None => [] end)
+                  (st_facts s1)
+    else []))%list.
